@@ -132,9 +132,9 @@ theorem webhook_log (e : Env) (s : St) (k : Kind) :
     simp only [beq_iff_eq] at ho
     simp [benign, ho]
 /-- a step that lets the request continue appended only benign events -/
-theorem exec_next_benign {e : Env} {s s' : St} {k : Kind} (h : exec e s k = .next s') :
+theorem execDB_next_benign {e : Env} {s s' : St} {k : Kind} (h : execDB e s k = .next s') :
     ∃ t, s'.log = s.log ++ t ∧ benign t = true := by
-  cases k <;> simp only [exec] at h
+  cases k <;> simp only [execDB] at h
   case useToken =>
     split at h
     · split at h
@@ -194,6 +194,20 @@ theorem exec_next_benign {e : Env} {s s' : St} {k : Kind} (h : exec e s k = .nex
     · cases h
     · cases h
 
+/-- `db.SimpleDB` makes no external call and changes nothing but the in-memory token set -/
+theorem execMem_spec {s s' : St} {k : Kind} (h : execMem s k = .next s' ∨ execMem s k = .abort s') :
+    s'.log = s.log ∧ s'.d.certs = s.d.certs ∧ s'.d.revoked = s.d.revoked ∧
+    (s.d.tokenSpent = true → s'.d.tokenSpent = true) := by
+  cases k <;> simp only [execMem] at h <;> (try split at h) <;> rcases h with h | h <;> cases h <;>
+    simp [spend]
+
+theorem exec_next_benign {e : Env} {s s' : St} {k : Kind} (h : exec e s k = .next s') :
+    ∃ t, s'.log = s.log ++ t ∧ benign t = true := by
+  unfold exec at h
+  split at h
+  · exact ⟨[], by simp [(execMem_spec (Or.inl h)).1], rfl⟩
+  · exact execDB_next_benign h
+
 theorem run_benign (e : Env) (ks : List Kind) (s : St)
     (hc : (run e ks s).2 = true) (hb : benign s.log = true) :
     benign (run e ks s).1.log = true := by
@@ -210,11 +224,11 @@ theorem run_benign (e : Env) (ks : List Kind) (s : St)
 
 /-- what one step can do to the durable state and the trace: tables only grow, flags only
     get set, the trace is only extended -/
-theorem exec_mono {e : Env} {s s' : St} {k : Kind}
-    (h : exec e s k = .next s' ∨ exec e s k = .abort s') :
+theorem execDB_mono {e : Env} {s s' : St} {k : Kind}
+    (h : execDB e s k = .next s' ∨ execDB e s k = .abort s') :
     s.d.certs ≤ s'.d.certs ∧ (s.d.tokenSpent = true → s'.d.tokenSpent = true) ∧
     (s.d.revoked = true → s'.d.revoked = true) ∧ ∃ t, s'.log = s.log ++ t := by
-  cases k <;> simp only [exec] at h
+  cases k <;> simp only [execDB] at h
   case enrich =>
     obtain ⟨t, ht, hd, _, _⟩ := webhook_log e s .enrich
     split at h <;> rcases h with h | h <;> cases h <;> simp [hd, ht]
@@ -224,6 +238,16 @@ theorem exec_mono {e : Env} {s s' : St} {k : Kind}
   all_goals
     (repeat' split at h) <;> rcases h with h | h <;> cases h <;>
       simp [spend, addCert, addRev, call, decide']
+
+theorem exec_mono {e : Env} {s s' : St} {k : Kind}
+    (h : exec e s k = .next s' ∨ exec e s k = .abort s') :
+    s.d.certs ≤ s'.d.certs ∧ (s.d.tokenSpent = true → s'.d.tokenSpent = true) ∧
+    (s.d.revoked = true → s'.d.revoked = true) ∧ ∃ t, s'.log = s.log ++ t := by
+  unfold exec at h
+  split at h
+  · obtain ⟨a, b, c, d⟩ := execMem_spec h
+    exact ⟨by omega, d, by simp [c], [], by simp [a]⟩
+  · exact execDB_mono h
 
 theorem run_mono (e : Env) (ks : List Kind) (s : St) :
     s.d.certs ≤ (run e ks s).1.d.certs ∧ (s.d.tokenSpent = true → (run e ks s).1.d.tokenSpent = true) ∧
@@ -311,7 +335,7 @@ theorem fail_closed_webhook_persistent (e : Env) (op : Op) (c : Cfg) (d : Durabl
 
 /-! ### stored before returned -/
 
-theorem run_store (e : Env) (ks : List Kind) (s : St) (hmem : Kind.store ∈ ks)
+theorem run_store (e : Env) (hdb : e.db = true) (ks : List Kind) (s : St) (hmem : Kind.store ∈ ks)
     (hc : (run e ks s).2 = true) :
     (∃ pre post, (run e ks s).1.log = pre ++ ⟨.store, .ok⟩ :: post) ∧
     s.d.certs + 1 ≤ (run e ks s).1.d.certs := by
@@ -326,7 +350,7 @@ theorem run_store (e : Env) (ks : List Kind) (s : St) (hmem : Kind.store ∈ ks)
       by_cases hk : k = .store
       · subst hk
         have hs : s'.log = s.log ++ [⟨.store, .ok⟩] ∧ s'.d.certs = s.d.certs + 1 := by
-          simp only [exec, call, addCert] at h
+          simp only [exec, hdb, Bool.true_eq_false, false_and, if_false, execDB, call, addCert] at h
           split at h
           · cases h; rename_i ho; simp [ho]
           · cases h
@@ -349,16 +373,17 @@ theorem store_mem (op : Op) (c : Cfg) (h : op.revokes = false) : Kind.store ∈ 
 
 /-- **stored_before_returned.** For every issuing operation (sign, renew, rekey, SSH sign /
     renew / rekey, ACME finalize), configuration, fault function and database state: if the
-    client is handed a certificate, then earlier in the same trace the store call was made and
-    answered `ok`, and the certificate table has grown. -/
-theorem stored_before_returned (e : Env) (op : Op) (c : Cfg) (d : Durable)
+    client is handed a certificate and a database that stores certificates is configured, then
+    earlier in the same trace the store call was made and answered `ok`, and the certificate
+    table has grown. -/
+theorem stored_before_returned (e : Env) (op : Op) (c : Cfg) (d : Durable) (hdb : e.db = true)
     (hop : op.revokes = false) (h : client op (runOp e op c d) = .certificate) :
     (∃ pre post, (runOp e op c d).1.log = pre ++ ⟨.store, .ok⟩ :: post) ∧
     d.certs + 1 ≤ (runOp e op c d).1.d.certs := by
   unfold client at h
   cases hc : (runOp e op c d).2 with
   | false => simp [hc] at h
-  | true => exact run_store e _ (init op d) (store_mem op c hop) hc
+  | true => exact run_store e hdb _ (init op d) (store_mem op c hop) hc
 
 /-- Likewise a revocation is acknowledged only after the revocation record call was answered
     `ok`, and the record exists afterwards. -/
@@ -380,13 +405,16 @@ theorem revocation_stored_before_acknowledged (e : Env) (op : Op) (c : Cfg) (d :
         by_cases hk : k = .storeRev
         · subst hk
           have hs : s'.log = s.log ++ [⟨.storeRev, .ok⟩] ∧ s'.d.revoked = true := by
-            simp only [exec, call, addRev] at h
+            unfold exec at h
             split at h
-            · split at h
+            · simp [execMem] at h
+            · simp only [execDB, call, addRev] at h
+              split at h
+              · split at h
+                · cases h
+                · cases h; rename_i ho _; simp [ho]
               · cases h
-              · cases h; rename_i ho _; simp [ho]
-            · cases h
-            · cases h
+              · cases h
           obtain ⟨_, _, c', t, ht⟩ := run_mono e ks s'
           exact ⟨by rw [ht, hs.1]; simp, c' hs.2⟩
         · have hm' : Kind.storeRev ∈ ks := by
@@ -416,7 +444,13 @@ theorem token_recorded_first (op : Op) (c : Cfg) (h : op.usesToken = true) :
 
 theorem exec_useToken_spends (e : Env) (s : St) (h0 : e.f s.log.length = .ok ∨ e.f s.log.length = .timeout) :
     ∃ s', (exec e s .useToken = .next s' ∨ exec e s .useToken = .abort s') ∧ s'.d.tokenSpent = true := by
-  simp only [exec, call_fst]
+  unfold exec
+  split
+  · simp only [execMem]
+    cases hd : s.d.tokenSpent
+    · exact ⟨spend s, Or.inl (by simp), by simp [spend]⟩
+    · exact ⟨s, Or.inr (by simp), hd⟩
+  simp only [execDB, call_fst]
   rcases h0 with h0 | h0 <;> rw [h0]
   · cases hd : s.d.tokenSpent
     · exact ⟨spend (call e s .useToken).2, Or.inl (by simp), by simp [spend]⟩
@@ -425,7 +459,10 @@ theorem exec_useToken_spends (e : Env) (s : St) (h0 : e.f s.log.length = .ok ∨
 
 theorem exec_useToken_refuses (e : Env) (s : St) (hd : s.d.tokenSpent = true) :
     ∃ s', exec e s .useToken = .abort s' ∧ s'.d.certs = s.d.certs ∧ s'.d.revoked = s.d.revoked := by
-  simp only [exec, call_fst]
+  unfold exec
+  split
+  · exact ⟨s, by simp [execMem, hd], rfl, rfl⟩
+  simp only [execDB, call_fst]
   cases e.f s.log.length <;> simp [hd, spend]
 
 /-- Once the record call at position 0 was answered `ok` (or applied with the acknowledgement
@@ -462,6 +499,35 @@ theorem token_spent (e e' : Env) (op : Op) (c c' : Cfg) (d : Durable)
     client op (runOp e' op c' (runOp e op c d).1.d) = .error :=
   (spent_token_refused e' op c' _ hop (token_spent_after_attempt e op c d hop h0)).1
 
+/-! ### no database configured (`db.SimpleDB`) -/
+
+/-- a step that always refuses blocks every list that contains it -/
+theorem run_blocked (e : Env) (k : Kind) (hk : ∀ s, ∃ s', exec e s k = .abort s') :
+    ∀ (ks : List Kind) (s : St), k ∈ ks → (run e ks s).2 = false := by
+  intro ks
+  induction ks with
+  | nil => intro s hm; simp at hm
+  | cons a ks ih =>
+    intro s hm
+    simp only [run]
+    cases hx : exec e s a with
+    | abort s' => rfl
+    | next s' =>
+      rcases List.mem_cons.mp hm with rfl | hm'
+      · obtain ⟨s'', h⟩ := hk s; rw [h] at hx; cases hx
+      · exact ih s' hm'
+
+/-- Without a database that stores revocations a revocation is never acknowledged
+    (`ErrNotImplemented` → 501), whatever else happens. -/
+theorem revoke_needs_db (e : Env) (op : Op) (c : Cfg) (d : Durable) (hdb : e.db = false)
+    (hop : op.revokes = true) : client op (runOp e op c d) = .error := by
+  have hm : Kind.storeRev ∈ steps op c := by
+    cases op <;> simp [Op.revokes] at hop <;>
+      simp [steps, authorizeSteps, authorizeTokenSteps, revokeTokenSteps, revokeMTLSSteps, revokeSSHSteps]
+  have hb := run_blocked e .storeRev (fun s => ⟨s, by simp [exec, hdb, Kind.isStore, execMem]⟩)
+    (steps op c) (init op d) hm
+  simp [client, runOp, hb]
+
 /-! ### the step lists and the source -/
 
 /-- The three request paths through `Revoke` (token, mTLS, SSH) are sub-sequences of the
@@ -475,6 +541,12 @@ theorem revoke_paths_in_source_order :
 /-! ### hypotheses are satisfiable (non-trivial instances) -/
 
 def allOk : Env := { f := fun _ => .ok, g := fun _ => true }
+def noDB : Env := { allOk with db := false }
+
+/-- `ErrNotImplemented` is tolerated: without a database the certificate is issued unrecorded -/
+example : let r := runOp noDB .sign ⟨1, 1⟩ {}
+    client .sign r = .certificate ∧ r.1.d.certs = 0 ∧ r.1.log.length = 2 := by decide
+example : client .revoke (runOp noDB .revoke ⟨0, 0⟩ {}) = .error := by decide
 
 example : client .sign (runOp allOk .sign ⟨2, 1⟩ {}) = .certificate := by decide
 example : client .revoke (runOp allOk .revoke ⟨0, 0⟩ {}) = .revoked := by decide
